@@ -75,6 +75,12 @@ class InstBundleElabPass(ElabPass):
                     new_inst.connect(portname, _bundle_ref(conn, signame))
 
             elif isinstance(conn, AnonymousBundle):
+                # Everything the connection brings along must have somewhere to go.
+                extra = [n for n in conn._namespace if n not in signal_names_to_instances]
+                if extra:
+                    msg = f"Connection to `{portname}` on Instance Bundle `{instbundle.name}` "
+                    msg += f"has `{extra}`, which {instbundle.bundle} does not"
+                    self.fail(msg)
                 for signame, new_inst in signal_names_to_instances.items():
                     new_inst.connect(portname, conn.get(signame))
 
